@@ -253,6 +253,61 @@ func init() {
 				}
 			}
 		}
+		// 2b. calendar edges: the end of February in leap, non-leap, century and 400-year years, the
+		// years where the year gains a digit, the first and the last supported years; and the end of
+		// every month of four years — month- and year-precision boundaries against the days around them
+		edgeYears := []int{1, 4, 9, 10, 99, 100, 200, 400, 900, 999, 1000, 1582, 1700, 1752, 1800, 1900, 2000, 2023, 2024, 2100, 2400, 9996, 9999}
+		for yi, y := range edgeYears {
+			var ep []gdate
+			ep = append(ep, gdate{0, 0, y}, gdate{0, 1, y}, gdate{0, 2, y}, gdate{0, 3, y}, gdate{31, 1, y}, gdate{1, 2, y},
+				gdate{27, 2, y}, gdate{28, 2, y}, gdate{1, 3, y}, gdate{2, 3, y}, gdate{31, 12, y}, gdate{0, 12, y})
+			if daysIn(2, y) == 29 {
+				ep = append(ep, gdate{29, 2, y})
+			}
+			if y > 1 {
+				ep = append(ep, gdate{31, 12, y - 1}, gdate{0, 0, y - 1})
+			}
+			if y < 9999 {
+				ep = append(ep, gdate{1, 1, y + 1}, gdate{0, 0, y + 1})
+			}
+			var er [][2]gdate
+			for _, s := range ep {
+				for _, e := range ep {
+					if fwd(s, e) {
+						er = append(er, [2]gdate{s, e})
+					}
+				}
+			}
+			k := yi
+			estep := 1
+			if c.Quick() {
+				estep = 11
+			}
+			for _, x := range er {
+				for _, y2 := range er {
+					k++
+					if k%estep == 0 {
+						c06pair(c, x[0], x[1], y2[0], y2[1])
+					}
+				}
+			}
+		}
+		for _, y := range []int{1900, 2000, 2023, 2024} {
+			for m := 1; m <= 12; m++ {
+				mo := gdate{0, m, y}
+				first, last := gdate{1, m, y}, gdate{daysIn(m, y), m, y}
+				next := gdate{1, 1, y + 1}
+				if m < 12 {
+					next = gdate{1, m + 1, y}
+				}
+				c06pair(c, mo, mo, first, last)
+				c06pair(c, first, last, mo, mo)
+				c06pair(c, mo, mo, next, next)
+				c06pair(c, mo, mo, last, last)
+				c06pair(c, first, mo, last, next)
+				c06pair(c, gdate{0, 0, y}, mo, mo, gdate{0, 0, y})
+			}
+		}
 		// 3. random ranges over years 1..9999
 		n := c.N(50000, 2000000)
 		for i := 0; i < n; i++ {
